@@ -69,6 +69,7 @@ fn spec(ctx: &Ctx, w: i64, counters: u64) -> SeqSpec {
         oracle: oracle(),
         keys: vec![1, 2],
         canon_sketch: true,
+        ghost_key: None,
         max_states: 2_000_000,
         time_cap_s: if quick { 12.0 } else { 600.0 },
     }
